@@ -1885,18 +1885,22 @@ Value collect_environment_overrides(const Value& environment_node) {
     if (!environment_node.is_object()) {
         return Value();
     }
-    Value overrides = Value::make_object();
+    // Flat keys and the explicit "overrides" object are both part of the overlay.  They are merged
+    // section by section (the explicit object wins on a clash) instead of one replacing the other's
+    // whole section depending on key order.
+    Value flat = Value::make_object();
+    Value nested = Value::make_object();
     for (const auto& [key, value] : environment_node.as_object()) {
         if (key == "profile") {
             continue;
         }
         if (key == "overrides" && value.is_object()) {
-            overrides = merge_objects(overrides, value);
+            nested = value;
             continue;
         }
-        overrides.as_object()[key] = value;
+        flat.as_object()[key] = value;
     }
-    return overrides;
+    return merge_objects(flat, nested);
 }
 
 std::string join_path(const std::vector<std::string>& path) {
